@@ -106,12 +106,23 @@ func runAPI(t *testing.T, rc *core.RunCtx) {
 	honestReliable := w.peers[0].role == "honest"
 
 	tampered := map[string]int{}
+	// validSent: a correct, correctly labelled cfilter for this block was sent
+	// by some node at some point of the run; badSent: kinds of incorrect ones.
+	validSent := map[chainhash.Hash]bool{}
+	badSent := map[chainhash.Hash]string{}
 	if isC05 {
 		w.cfilterTamper = func(p *SimPeer, b *chainmodel.Block, msg *wire.MsgCFilter) []wire.Message {
 			if tamperPct[p.idx] == 0 || !tp.Chance(tamperPct[p.idx], 100) {
+				validSent[b.Hash] = true
 				return []wire.Message{msg}
 			}
 			kind := 1 + tp.Intn(numTF-1)
+			switch kind {
+			case tfDuplicate, tfUnknownHash, tfExtraFirst:
+				validSent[b.Hash] = true
+			default:
+				badSent[b.Hash] += tfNames[kind] + " "
+			}
 			rc.Fault("cfilter." + tfNames[kind])
 			tampered[tfNames[kind]]++
 			other := chain[1+tp.Intn(n)]
@@ -153,6 +164,7 @@ func runAPI(t *testing.T, rc *core.RunCtx) {
 				return []wire.Message{wire.NewMsgCFilter(msg.FilterType, &msg.BlockHash, nil)}
 			case tfExtraFirst:
 				oh := other.Hash
+				validSent[oh] = true // the unsolicited one is a true filter of its block
 				return []wire.Message{wire.NewMsgCFilter(msg.FilterType, &oh, filterBytes(of)), msg}
 			}
 			return []wire.Message{msg}
@@ -209,6 +221,7 @@ func runAPI(t *testing.T, rc *core.RunCtx) {
 	wt.check()
 
 	type call struct {
+		hadBefore      bool // the filter was in the cache or database when the call started
 		defaultRetries bool
 		idx   int
 		blk   *chainmodel.Block
@@ -261,6 +274,7 @@ func runAPI(t *testing.T, rc *core.RunCtx) {
 	judge := func(c *call) {
 		inflight--
 		h := c.blk.Height
+		rc.State(fmt.Sprintf("call|%s|h=%s|err=%v|had=%v", c.what, bucket(int(h)), c.err != nil, c.hadBefore))
 		if isC05 {
 			if c.err == nil && c.filt == nil {
 				rc.Failf("nil-filter-without-error", nil, "GetCFilter(%d) returned neither a filter nor an error", h)
@@ -271,6 +285,11 @@ func runAPI(t *testing.T, rc *core.RunCtx) {
 			}
 			if early {
 				rc.Probe("early_call_failed_as_it_must")
+			}
+			if c.err == nil && !validSent[c.blk.Hash] && !c.hadBefore {
+				rc.Failf("filter-accepted-from-invalid-response", map[string]string{"kinds": badSent[c.blk.Hash]},
+					"GetCFilter(%d) returned a filter although no node ever sent a correct, correctly labelled cfilter for that block (sent: %s) and it was neither cached nor persisted before the call",
+					h, badSent[c.blk.Hash])
 			}
 			if c.err == nil {
 				mf, _, _ := w.tree.Filter(c.blk)
@@ -343,6 +362,12 @@ func runAPI(t *testing.T, rc *core.RunCtx) {
 			}
 			if tp.Chance(1, 3) {
 				opts = append(opts, neutrino.NumRetries(uint8(tp.Intn(3))))
+			}
+			if cf, err := w.cs.FilterCache.Get(neutrino.FilterCacheKey{BlockHash: c.blk.Hash, FilterType: filterdb.RegularFilter}); err == nil && cf != nil {
+				c.hadBefore = true
+			}
+			if df, err := w.cs.FilterDB.FetchFilter(&c.blk.Hash, filterdb.RegularFilter); err == nil && df != nil {
+				c.hadBefore = true
 			}
 			rc.Logf("t=%s call %d: GetCFilter(height %d, %s)", w.clock(), i, c.blk.Height, c.what)
 			go func() {
